@@ -75,7 +75,7 @@ def read_traces(path):
                 cur.error = line[6:]
                 continue
             cur.steps.append((line, None, section))
-    return traces
+    return [t for t in traces if t.cfg is not None]
 
 
 def run_model(traces):
